@@ -389,3 +389,56 @@ func zzEndToEnd(varyRequest bool) {
 	}
 	verifrt.Observe("e2e", status, w.status, true)
 }
+
+// VerifK13WritePairs: a name-value pair around the 127/128 length-encoding boundary and around the
+// 65 500-byte record limit: whatever the lengths, sending it does not panic; a pair that fits a
+// single record reaches the responder exactly; the records written are well-formed.
+func VerifK13WritePairs() {
+	lens := []int{0, 1, 127, 128, 300, 65363, 65364, 65365, 65491, 65492, 65493, 65600}
+	kl := lens[1+verifrt.Choose("keylen", len(lens)-1)]
+	vl := lens[verifrt.Choose("vallen", len(lens))]
+	k := strings.Repeat("K", kl)
+	v := strings.Repeat("v", vl)
+	conn := &zzE2EConn{script: &zzReplyScript{}}
+	c := &FCGIClient{rwc: conn, reqID: 1}
+	err := c.writePairs(Params, map[string]string{k: v})
+	verifrt.Assert(err == nil, "pairs-written")
+	// reference decoding of what is on the wire: Params records, closed by an empty one
+	raw := conn.w.Bytes()
+	var params []byte
+	closed, wellFormed := false, true
+	for len(raw) > 0 {
+		if len(raw) < 8 || raw[0] != 1 || raw[1] != Params {
+			wellFormed = false
+			break
+		}
+		cl := int(raw[4])<<8 | int(raw[5])
+		total := 8 + cl + int(raw[6])
+		if len(raw) < total || closed {
+			wellFormed = false
+			break
+		}
+		if cl == 0 {
+			closed = true
+		}
+		params = append(params, raw[8:8+cl]...)
+		raw = raw[total:]
+	}
+	verifrt.Assert(wellFormed && closed, "well-formed-params-stream")
+	if 8+kl+vl <= 65500 {
+		nl, u1, ok1 := zzNVLen(params)
+		ok := ok1
+		var vlen, u2 int
+		if ok {
+			var ok2 bool
+			vlen, u2, ok2 = zzNVLen(params[u1:])
+			ok = ok2
+		}
+		ok = ok && nl == kl && vlen == vl && len(params) == u1+u2+kl+vl
+		verifrt.Assert(ok, "pair-that-fits-one-record-arrives-exactly")
+		if ok {
+			verifrt.Assert(string(params[u1+u2:u1+u2+kl]) == k && string(params[u1+u2+kl:]) == v, "pair-bytes-exact")
+		}
+	}
+	verifrt.Observe("pairs", len(params))
+}
